@@ -246,6 +246,30 @@ def fftBlock (o : Ops α) (cd : Codec α) (taps : List α) : Block :=
   { σ := FftSt α, init := ⟨[], [], List.replicate taps.length o.zero⟩
     work := fftWork o cd taps, eof := fun _ v => macroEof v }
 
+/-! ### FftStream (src/fft_stream.rs): framing around an engine -/
+
+/-- whole frames of `size` samples -/
+def framesOf (size : Nat) : Nat → List Nat → List (List Nat)
+  | 0, _ => []
+  | k + 1, l => l.take size :: framesOf size k (l.drop size)
+
+/-- `FftStream::work`: needs one whole frame in and room for one out; transforms as many whole frames as fit
+both windows. `engine` = what `fft.process(chunk)` does to one frame. -/
+def fftStreamWork (engine : List Nat → List Nat) (size : Nat) (_ : Unit) (v : View) : Unit × Out :=
+  let i := in0 v
+  if i.samples.length < size then ((), noOut v (.waitIn 0 size))
+  else if (out0 v).free < size then ((), noOut v (.waitOut 0 size))
+  else if size = 0 then ((), noOut v .panic)   -- `len % self.size`
+  else
+    let len := min i.samples.length (out0 v).free
+    let len := len - len % size
+    ((), { consumed := [len]
+           produced := [⟨(framesOf size (len / size) (i.samples.take len)).flatMap engine, []⟩]
+           verdict := .again })
+
+def fftStreamBlock (engine : List Nat → List Nat) (size : Nat) : Block :=
+  { σ := Unit, init := (), work := fftStreamWork engine size, eof := fun _ v => macroEof v }
+
 /-! ### Instances used by the driver -/
 
 def f32Ops : Ops Float32 := ⟨0.0, (· + ·), (· * ·)⟩
@@ -267,6 +291,24 @@ def f32ToInt (x : Nat) : Int := (f32 x).toInt64.toInt
 def intToF32 (v : Int) : Nat := bits (Float32.ofInt v)
 def giCodec : Codec GI :=
   ⟨fun x => (f32ToInt (x % 2 ^ 32), f32ToInt (x / 2 ^ 32)), fun c => intToF32 c.1 + intToF32 c.2 * 2 ^ 32⟩
+
+/-- multiplication by `(-i)^m` -/
+def giRot (m : Nat) (c : GI) : GI :=
+  match m % 4 with
+  | 0 => c
+  | 1 => (c.2, -c.1)
+  | 2 => (-c.1, -c.2)
+  | _ => (-c.2, c.1)
+
+/-- The forward DFT of one frame of `n ∈ {1, 2, 4}` Gaussian integers, exactly (the twiddle factors are powers
+of `-i`; `rustfft`'s butterflies compute the same sums exactly in `f32` on small integers). Other sizes: not
+modelled (the frame is returned unchanged; the harness only asks for 1, 2, 4). -/
+def giDft (n : Nat) (frame : List Nat) : List Nat :=
+  if n = 1 ∨ n = 2 ∨ n = 4 then
+    let xs := frame.map giCodec.dec
+    (List.range n).map fun k =>
+      giCodec.enc (((List.range n).map fun j => giRot ((4 / n) * j * k) (xs.getD j (0, 0))).foldl giOps.add (0, 0))
+  else frame
 
 /-- `FastFM::process_sync`. State `(q1, q2)`. -/
 def fastFm (st : C32 × C32) (s : C32) : (C32 × C32) × Float32 :=
@@ -303,6 +345,7 @@ def dspRegistry (name : String) (p : List Nat) : Option Block :=
     some (hilbertBlock f32Ops f32Codec (fun re im => bits re + bits im * 2 ^ 32)
       (dotAvx f32Ops) (taps.map f32))
   | "fftx", taps => some (fftBlock giOps giCodec (taps.map giCodec.dec))
+  | "fftstream_x", [size] => some (fftStreamBlock (giDft size) size)
   | _, _ => (dspSync name p).map (·.block)
 
 end RR.Dsp
